@@ -98,6 +98,15 @@ class Con:
     n: Annotated[int, schema(min=5)] = 5
     items: Annotated[List[int], schema(max_items=1)] = field(default_factory=list)
 
+# fields of DC computed by a callable whose answer can change (registered again after the change, as the docs ask)
+PROVIDER = {"wide": False}
+def dc_fields_provider():
+    from apischema.objects import ObjectField
+    fields = [ObjectField("a_b", int, required=False, default=0)]
+    if PROVIDER["wide"]:
+        fields.append(ObjectField("c", Optional[str], required=False, default="w"))
+    return fields
+
 # a class which is not a dataclass: its fields come from set_object_fields only
 class PNode:
     def __init__(self, value=0, child=None):
@@ -260,6 +269,22 @@ def _(m):
     from apischema.objects import ObjectField, set_object_fields
 
     set_object_fields(m.PNode, [ObjectField("value", int, required=False, default=0), ObjectField("child", Optional[m.PNode], required=False, default=None)])
+
+
+@op("set_object_fields:DC=provider")
+def _(m):
+    from apischema.objects import set_object_fields
+
+    set_object_fields(m.DC, m.dc_fields_provider)
+
+
+@op("provider:widen+register_again")
+def _(m):
+    # the very same callable registered again once what it computes has changed: an equal value is still a registration
+    from apischema.objects import set_object_fields
+
+    m.PROVIDER["wide"] = True
+    set_object_fields(m.DC, m.dc_fields_provider)
 
 
 @op("deserializer:K<-Holder")
